@@ -48,9 +48,9 @@ def models():
             base.add_mempool_tx(t)
             common.append(t)
         ds = []
-        for i in range(3):
+        for i, extra in enumerate((6, 0, 3)):      # heights fall and rise along the fail-over order
             tip = b
-            for _ in range(3 * i):
+            for _ in range(extra):
                 tip = gen.make_block(tip, rng, 0)       # coinbase-only blocks: nothing common is spent
             d = SimDaemon(tree)
             d.set_tip(tip)
@@ -58,7 +58,7 @@ def models():
                 assert d.add_mempool_tx(t)
             d.spare = common[3]
             avail = {k: v for k, v in d.mempool_avail().items() if v[2] >= 0 and k[0] == tip.txs[0].hash} \
-                if i else None
+                if extra else None
             if avail:
                 d.add_mempool_tx(gen.make_tx(rng, dict(avail), n_in=1))
             ds.append(d)
@@ -122,7 +122,7 @@ class DaemonFaultFamily(Family):
         asyncio.set_event_loop(loop)
         ds = models()[:nurls]
         urls = [f'http://u:p@d{i + 1}:8332/' for i in range(nurls)]
-        faults = FaultPlan(sim, script=[f for f in op['faults']])
+        faults = FaultPlan(sim, script=[None] + [f for f in op['faults']])     # the leading height() is not faulted
         net = DaemonNet(sim, dict(zip(urls, ds)), faults, latency=(0.0005, 0.05))
         url_log = []
         orig_daemon_for = net.daemon_for
@@ -178,6 +178,7 @@ class DaemonFaultFamily(Family):
             async with Daemon(BitcoinSVRegtest, ','.join(u[7:-1] for u in urls),
                               init_retry=init, max_retry=mx) as daemon:
                 out['daemon'] = daemon
+                out['height_before'] = (await daemon.height(), ds[daemon.url_index].height)
                 if op.get('concurrent'):
                     others = ['height', 'mempool_hashes']
                     rs = await asyncio.gather(issue(daemon, call), *[issue(daemon, o) for o in others],
@@ -187,7 +188,12 @@ class DaemonFaultFamily(Family):
                     if isinstance(r, BaseException):
                         raise r
                     return r
-                return await issue(daemon, call)
+                r = await issue(daemon, call)
+                # afterwards the daemon's height as seen through this Daemon object must be the genuine one
+                # of whichever daemon serves now (it may be lower than one seen before a fail-over)
+                h1 = await daemon.height()
+                out['height_after'] = (h1, daemon.cached_height(), ds[daemon.url_index].height)
+                return r
 
         saved = [dict(d.mempool) for d in ds]
         try:
@@ -261,9 +267,16 @@ class DaemonFaultFamily(Family):
                 if not ok:
                     v('wrong_answer', f'returned {str(r)[:120]} which is not the genuine, complete, aligned '
                       f'answer of the daemon that served the successful attempt')
+        hb = run.get('height_before')
+        if hb is not None and hb[0] != hb[1]:
+            v('wrong_answer', f'leading height() returned {hb[0]}, daemon is at {hb[1]}')
+        ha = run.get('height_after')
+        if ha is not None and not (ha[0] == ha[1] == ha[2]):
+            v('stale_height', f'height() after the call returned {ha[0]} (cached {ha[1]}) but the daemon now in use '
+              f'is at {ha[2]}')
         # attempts: one per fault plus the successful / genuinely failing one
         if not op.get('concurrent') and 'exc' not in run or (genuine_error and not op.get('concurrent')):
-            if run['requests'] != nfaults + 1:
+            if run['requests'] != nfaults + 2 + (1 if 'height_after' in run else 0):
                 v('attempts', f'{run["requests"]} HTTP requests for {nfaults} faults')
         if run['inflight'] != 0:
             v('inflight', f'{run["inflight"]} request(s) still in flight after the call returned')
@@ -291,7 +304,8 @@ class DaemonFaultFamily(Family):
                     exp_sleeps.append(sa[k] if k < len(sa) else None)
                     exp_fail.append(False)
                     k += 1
-            got_fail = [a != b for a, b in zip(log, log[1:])][:nfaults]
+            alog = log[1:]                 # without the leading height() request
+            got_fail = [a != b for a, b in zip(alog, alog[1:])][:nfaults]
             if len(sa) >= nfaults and (got_fail != exp_fail[:len(got_fail)] or
                                        run['sleeps'][:nfaults] != exp_sleeps):
                 v('failover.timing', f'fail-overs {got_fail} sleeps {run["sleeps"]} but the single-URL run '
